@@ -156,6 +156,16 @@ Definition expand_span (tbl : span_table) (r : span_range) : option span :=
    the list of the LoadName followed by the lists of the absorbed LoadAttr, in path order *)
 Definition collected_spans (group : list (list span)) : list span := concat group.
 
+(* ------------------------------------------------------------------ interpreter.rs: report_target *)
+
+(* interpreter.rs 917-925: the (name, source) an error raised while running `chunk` is reported
+   against.  `templates` is the registry (name -> (name, source) of the stored Template);
+   `tera.templates[&chunk.name]` panics when the name is not registered: None. *)
+Definition report_target (tpl_name tpl_source chunk_name : list N)
+    (templates : list N -> option (list N * list N)) : option (list N * list N) :=
+  if list_eq_dec N.eq_dec tpl_name chunk_name then Some (tpl_name, tpl_source)
+  else templates chunk_name.
+
 (* ------------------------------------------------------------------ reporting.rs *)
 
 (* positions of the '\n' bytes of l, counted from i *)
@@ -305,6 +315,10 @@ Definition span_wfb (src : list N) (sp : span) : bool :=
   is_char_boundary src (rstart sp) && is_char_boundary src (rend sp) &&
   pair_eqb (start_line sp, start_col sp) (linecol src (rstart sp)) &&
   pair_eqb (end_line sp, end_col sp) (linecol src (rend sp)).
+
+(* executable validity check (Spec.Utf8Chars.valid_utf8) through the model's `chars` *)
+Definition valid_utf8b (l : list N) : bool :=
+  match fst (split_chars l) with [] => forallb wf_charb (chars l) | _ => false end.
 
 (* a lexer location agrees with the reference line/column of its byte offset *)
 Definition loc_ok (src : list N) (st : loc) : Prop :=
